@@ -710,8 +710,15 @@ class WaveShareNmea2000Gateway(AsyncIOClient):
             start = self._buffer.find(b"\xaa\x55")
 
             if start == -1:
-                # If start marker not found, wait for more data
+                # If start marker not found, wait for more data. Drop the noise, but keep the last byte:
+                # it may be the first half of a start marker that is completed by the next read
+                if len(self._buffer) > 1:
+                    self._buffer = self._buffer[-1:]
                 break
+            if start > 0:
+                # Drop the noise in front of the start marker
+                self._buffer = self._buffer[start:]
+                start = 0
             if start + 20 > len(self._buffer):
                 # Not enough data for a full packet yet
                 break
